@@ -24,13 +24,22 @@ G = lambda *a: "{" + ",".join('"%s"' % x for x in a) + "}"
 # name, functions, (nmax, nvar) quick, (nmax, nvar) thorough
 GROUPS = [
     ("elementwise", G("Add", "AddTo", "Sub", "SubTo", "Mul", "MulTo", "Div", "DivTo", "AddConst", "Scale",
-                      "ScaleTo", "AddScaled", "AddScaledTo"), (70, 3), (70, 12)),
-    ("reductions", G("CumSum", "CumProd", "Sum", "Prod", "Dot", "Norm1", "Dist1", "NormInf", "DistInf"), (70, 3), (70, 12)),
-    ("norm2", G("Norm2", "Dist2", "Nrm2Inc"), (70, 5), (70, 15)),
-    ("index", G("MaxIdx", "MinIdx", "NearestIdx", "Within", "Find", "Count"), (40, 7), (70, 21)),
-    ("sort", G("Argsort", "ArgsortStable"), (33, 3), (70, 8)),
-    ("span", G("Span", "SpanEnds", "NearestIdxForSpan"), (40, 11), (70, 22)),
-    ("strided", G("Axpy", "DotInc", "ScalInc", "AsumInc"), (40, 5), (70, 10)),
+                      "ScaleTo", "AddScaled", "AddScaledTo"), (70, 11), (70, 44), ""),
+    ("reductions", G("CumSum", "CumProd", "Sum", "Prod", "Dot", "Norm1", "Dist1", "NormInf", "DistInf"), (70, 10), (70, 40), ""),
+    ("norm2", G("Norm2", "Dist2", "Nrm2Inc"), (70, 5), (70, 20), ""),
+    ("index", G("MaxIdx", "MinIdx", "NearestIdx", "Within", "Find", "Count"), (70, 10), (70, 40), ""),
+    ("sort", G("Argsort", "ArgsortStable"), (40, 4), (70, 16), ""),
+    ("span", G("Span", "SpanEnds", "SpanEndsFin", "NearestIdxForSpan"), (70, 11), (70, 44), ""),
+    ("strided", G("Axpy", "DotInc", "ScalInc", "AsumInc"), (70, 10), (70, 30), ""),
+    ("complex", G("CAdd", "CAddTo", "CSub", "CSubTo", "CMul", "CMulTo", "CMulConj", "CMulConjTo", "CDiv", "CDivTo",
+                  "CAddConst", "CScale", "CScaleTo", "CScaleReal", "CScaleRealTo", "CAddScaled", "CAddScaledTo",
+                  "CCumSum", "CCumProd", "CSum", "CProd", "CDot", "CReal", "CImag", "CComplex", "CMaxAbsIdx",
+                  "CMinAbsIdx"), (70, 4), (70, 14), "CDivOK"),
+    ("bool-reverse", G("EqualSame", "Reverse"), (70, 9), (70, 30), ""),
+    ("spatial", G("R3Add", "R3Sub", "R3Scale", "R3Dot", "R3Cross", "R3Norm2", "R2Add", "R2Sub", "R2Scale", "R2Dot",
+                  "R2Cross", "R2Norm2", "R3MatMulVec", "R3MatMulVecTrans", "R3MatAdd", "R3MatSub", "R3MatScale",
+                  "R3MatMul", "R3MatDet", "R3MatOuter", "R3MatSkew", "R3MatT", "R3VecRow", "R3VecCol"), (20, 7), (70, 14), ""),
+    ("complex-strided", G("CNorm2", "CAxpy", "CDotu", "CDotc", "CScal", "CDscal", "CAsum", "CNrm2"), (70, 5), (70, 20), ""),
 ]
 # unit-stride kernels at long lengths (thorough): formula-valued integer data only
 LONG = [("long-257", 257), ("long-1000", 1000), ("long-4099", 4099), ("long-10000", 10000)]
@@ -57,10 +66,10 @@ def run(ctx):
         for bn, _ in builds:
             ctx.replay(bins[bn], "slices", cases, name="R2 replay %s [%s]" % (label, bn))
 
-    for name, fns, q, t in GROUPS:
+    for name, fns, q, t, extra in GROUPS:
         nmax, nvar = t if thorough else q
         cases = ctx.gen("slices/SlicePrims.tla", "slices/SlicePrims_gen.cfg", name="R2 gen " + name,
-                        subst=dict(FNS=fns, NMIN=0, NMAX=nmax, NVAR=nvar, SEED=seed, EXTRA=""))
+                        subst=dict(FNS=fns, NMIN=0, NMAX=nmax, NVAR=nvar, SEED=seed, EXTRA=extra))
         replay_all(cases, name)
     if thorough:
         for name, n in LONG:
